@@ -116,6 +116,18 @@ static void iauth_class_free_rules(void)
     xfree(conf.rules.vec);
 }
 
+CONF_UPDATE_HOOK(iauth_class_conf_changed);
+
+/** Handle a change inside one rule (a criterion or its class was
+ * added, removed or given a new value).  The configuration code only
+ * notifies the node that changed, so rebuild the rule table.
+ */
+static CONF_UPDATE_HOOK(iauth_class_rule_changed)
+{
+    iauth_class_conf_changed(&conf.root->base);
+    (void)node_;
+}
+
 CONF_UPDATE_HOOK(iauth_class_conf_changed)
 {
     struct iauth_class_rules new_rules;
@@ -124,6 +136,7 @@ CONF_UPDATE_HOOK(iauth_class_conf_changed)
     struct conf_node_object *obj;
     struct conf_node_string *str;
     struct set_node *it;
+    struct set_node *jt;
     unsigned int n_rules;
     unsigned int o_idx = 0;
     int res;
@@ -139,29 +152,39 @@ CONF_UPDATE_HOOK(iauth_class_conf_changed)
             continue;
         obj = set_node_data(it);
 
+        /* Make sure we hear about later changes within the rule.  (A
+         * child that is being removed reports in with a NULL value.) */
+        if (!obj->base.hook)
+            obj->base.hook = iauth_class_rule_changed;
+        for (jt = set_first(&obj->contents); jt != NULL; jt = set_next(jt)) {
+            struct conf_node_base *child = set_node_data(jt);
+            if (!child->hook)
+                child->hook = iauth_class_rule_changed;
+        }
+
         /* Load the new rule. */
         rule = &new_rules.vec[new_rules.used];
         rule->name = xstrdup(obj->base.name);
         str = conf_get_child(obj, "class", CONF_STRING);
-        if (str)
+        if (str && str->value)
             rule->class = xstrdup(str->value);
         str = conf_get_child(obj, "account", CONF_STRING);
-        if (str)
+        if (str && str->value)
             rule->account = xstrdup(str->value);
         str = conf_get_child(obj, "address", CONF_STRING);
-        if (str)
+        if (str && str->value)
             irc_pton(&rule->address, &rule->address_bits, str->value, 0);
         str = conf_get_child(obj, "username", CONF_STRING);
-        if (str)
+        if (str && str->value)
             rule->username = xstrdup(str->value);
         str = conf_get_child(obj, "hostname", CONF_STRING);
-        if (str)
+        if (str && str->value)
             rule->hostname = xstrdup(str->value);
         str = conf_get_child(obj, "xreply_ok", CONF_STRING);
-        if (str)
+        if (str && str->value)
             rule->xreply_ok = xstrdup(str->value);
         str = conf_get_child(obj, "trust_username", CONF_STRING);
-        if (str)
+        if (str && str->value)
             rule->trust_username = conf_parse_boolean(str->value, 0);
 
         /* Increment the number of rules in the new set. */
